@@ -9,6 +9,8 @@ for d in $(ls -d /verif/seeded/C*-* | sort); do
   [ "$(basename $d)" = "C06-2" ] && own=C01
   # C09-2 still applies textually but no longer compiles since the repair of F8 (kept for the record)
   [ "$(basename $d)" = "C09-2" ] && continue
+  # C16-14 stopped being a violation with the repair of F11, which it led to (kept for the record)
+  [ "$(basename $d)" = "C16-14" ] && continue
   [ -f $d/patch.diff ] && git -C /repo apply --check $d/patch.diff 2>/dev/null && echo "$d/patch.diff $own"
 done > /verif/work/regress.jobs
 cat /verif/work/regress.jobs | xargs -P "$lanes" -L 1 sh -c 'timeout 5400 /verif/tools/isolated.py "$@" 2>&1 | grep -E "exit="' _ > /verif/work/regress.log 2>&1
